@@ -8,6 +8,7 @@ import AcVerif.Engine.Find
 import AcVerif.Engine.Overlap
 import AcVerif.Engine.Iter
 import AcVerif.Engine.Recipe
+import AcVerif.Engine.Gates
 /-!
 # Line-protocol driver: the model's answer to each request
 -/
@@ -135,6 +136,39 @@ def answer (r : Req) (c : Cfg) : String :=
 where
   A_ok (outs : List (Except MatchErr (Option Mat))) : Bool :=
     outs.all fun o => match o with | .ok _ => true | .error _ => false
+
+/-- `gate api=<rust method name>`: ok / err-* / panic, as the harness classifies -/
+def answerGate (r : Req) (c : Cfg) : String :=
+  let name := r.getD "api" ""
+  let (isTry, base) := if name.startsWith "try_" then (true, (name.drop 4).toString) else (false, name)
+  let api? : Option Api := match base with
+    | "find" => some .find | "is_match" => some .isMatch
+    | "find_overlapping" => some .findOverlapping | "find_iter" => some .findIter
+    | "find_overlapping_iter" => some .findOverlappingIter
+    | "replace_all" => some .replaceAll | "replace_all_bytes" => some .replaceAllBytes
+    | "replace_all_with" => some .replaceAllWith | "replace_all_with_bytes" => some .replaceAllWithBytes
+    | "stream_find_iter" => some .streamFindIter | "stream_replace_all" => some .streamReplaceAll
+    | "stream_replace_all_with" => some .streamReplaceAllWith
+    | _ => none
+  match api?, MatchKind.parse (r.getD "mk" "std"), r.list? "pats" with
+  | some api, some mk, some P =>
+    let hasEmpty := P.any (·.isEmpty)
+    let anch := r.flag "anch"
+    if c.isTop then
+      -- `is_match` has no `try_` twin; the stream replace routines have no infallible twin
+      if (api == .isMatch && isTry) || ((api == .streamReplaceAll || api == .streamReplaceAllWith) && !isTry) then "bad-api"
+      else match gate api mk c.sk anch hasEmpty with
+        | none => "ok"
+        | some e => if isTry then e.name else "panic"
+    else
+      let supported := isTry && (api == .find || api == .findOverlapping || api == .findIter ||
+        api == .findOverlappingIter || api == .replaceAllBytes || api == .replaceAll ||
+        api == .streamFindIter || api == .streamReplaceAll)
+      if !supported then "n/a"
+      else match gateAut api mk c.autStartKind anch hasEmpty with
+        | none => "ok"
+        | some e => e.name
+  | _, _, _ => "bad-request:gate"
 
 def cfgsOf (r : Req) : List Cfg :=
   ((r.getD "cfgs" "nc.d.1.0.b").splitOn ";").filterMap Cfg.parse
@@ -304,6 +338,7 @@ def respond (lineNo : Nat) (line : String) : List String :=
     match r.op with
     | "certl1" => [s!"{lineNo} - {answerCert r}"]
     | "certpair" => [s!"{lineNo} - {answerCertPair r}"]
+    | "gate" => (cfgsOf r).map fun c => s!"{lineNo} {c.name} {answerGate r c}"
     | _ => (cfgsOf r).map fun c => s!"{lineNo} {c.name} {answer r c}"
 
 end AcVerif
